@@ -11,7 +11,7 @@ import (
 )
 
 // Connection kinds shared by C16 / C10 / C11 / C17 workloads.
-var connKinds = []string{"h2ok", "h1ok", "noneok", "plainhttp", "garbage", "stall_close", "stall_wait", "abort_handshake", "abort_after_handshake", "abort_mid_request", "h1idle_close"}
+var connKinds = []string{"h2ok", "h1ok", "noneok", "plainhttp", "garbage", "stall_close", "stall_wait", "abort_handshake", "abort_after_handshake", "abort_mid_request", "h1idle_close", "h1upgrade"}
 
 // DrawConnClient builds a client of the given kind.  Returns plan and meta.
 func DrawConnClient(t *rapid.T, ci int, kind string, hsTimeout int) (*ClientPlan, *ClientMeta) {
@@ -60,6 +60,46 @@ func DrawConnClient(t *rapid.T, ci int, kind string, hsTimeout int) (*ClientPlan
 			cp.Steps = append(cp.Steps, Step{Kind: "readeof"})
 		}
 		cp.Steps = append(cp.Steps, Step{Kind: "close"})
+	case "h1upgrade":
+		// a protocol upgrade through the reverse proxy (WebSocket style): 101, then a tunnel
+		// of opaque bytes that ends by the client leaving (close / reset) or the back-end hanging up
+		m.Proto = "h1"
+		cp.Hello = DrawHello(t, HelloOpts{Proto: "h1"})
+		cp.Steps = []Step{{Kind: "connect"}}
+		ri := 0
+		if drawBool(t, "up_after_req", 40) {
+			r := req(ri)
+			ri++
+			m.Reqs = append(m.Reqs, r)
+			cp.Steps = append(cp.Steps, Step{Kind: "h1req", Pieces: [][]byte{r.H1()}, Tag: r.Tag})
+		}
+		up := req(ri)
+		up.Header = [][2]string{{"Connection", "Upgrade"}, {"Upgrade", "verif-echo"}}
+		nmsg := rapid.IntRange(0, 3).Draw(t, "up_msgs")
+		end := rapid.IntRange(0, 2).Draw(t, "up_end")
+		total := 0
+		var msgs [][]byte
+		for k := 0; k < nmsg; k++ {
+			b := []byte(fmt.Sprintf("tunnel-%d-%d:%s", ci, k, strings.Repeat("x", rapid.IntRange(0, 3000).Draw(t, "up_len"))))
+			msgs = append(msgs, b)
+			total += len(b)
+		}
+		if end == 2 && total > 0 {
+			up.Header = append(up.Header, [2]string{"X-Hangup", fmt.Sprint(total)})
+		}
+		m.Reqs = append(m.Reqs, up)
+		cp.Steps = append(cp.Steps, Step{Kind: "h1req", Pieces: [][]byte{up.H1()}, Tag: up.Tag})
+		for _, b := range msgs {
+			cp.Steps = append(cp.Steps, Step{Kind: "tunnel", Pieces: [][]byte{b}})
+		}
+		switch {
+		case end == 2 && total > 0:
+			cp.Steps = append(cp.Steps, Step{Kind: "readeof"}, Step{Kind: "close"})
+		case end == 1:
+			cp.Steps = append(cp.Steps, Step{Kind: "reset"})
+		default:
+			cp.Steps = append(cp.Steps, Step{Kind: "close"})
+		}
 	case "plainhttp":
 		cp.Raw = true
 		cp.Steps = []Step{{Kind: "connect"}, {Kind: "tcpwrite", Pieces: [][]byte{[]byte("GET / HTTP/1.1\r\nHost: plain.verif.test\r\n\r\n")}}, {Kind: "readeof"}, {Kind: "close"}}
@@ -116,7 +156,7 @@ func drawTimeoutArgs(t *rapid.T) (args []string, hs, idle int) {
 
 func init() {
 	register(&CheckDef{ID: "C16", Level: "exploration", Engine: "A", Draw: drawC16,
-		Rule: "1-8 concurrent connections drawn from {h2, http/1.1, no ALPN, plain HTTP on the TLS port, garbage bytes, silent stall then close/reset, stall until the handshake timeout, abort during the handshake (close / reset at a controller-chosen moment), abort right after the handshake, abort mid-request, idle keep-alive closed by the proxy}; handshake timeout in {off,1s,10s}, idle timeout in {2s,30s,180s} through the real flags; completion order chosen by the controller. Oracle: fingerproxy_requests_total gathered from the registry = multiset of (ok, protocol) implied by the outcomes (connections whose server-side handshake result the client cannot know are admitted either way), sum = accepted connections at the end, and sum <= connections already closed by the server at intermediate quiescent points. Non-trivial: >= 2 connections of different outcome. Distinct: distinct controller action-label sequences."})
+		Rule: "1-8 concurrent connections drawn from {h2, http/1.1, no ALPN, plain HTTP on the TLS port, garbage bytes, silent stall then close/reset, stall until the handshake timeout, abort during the handshake (close / reset at a controller-chosen moment), abort right after the handshake, abort mid-request, idle keep-alive closed by the proxy, HTTP/1.1 protocol upgrade with a tunnel ended by either side}; in 20% of the runs the proxy is shut down (context cancelled) at a random controller step; handshake timeout in {off,1s,10s}, idle timeout in {2s,30s,180s} through the real flags; completion order chosen by the controller. Oracle: fingerproxy_requests_total gathered from the registry = multiset of (ok, protocol) implied by the outcomes (connections whose server-side handshake result the client cannot know are admitted either way), sum = accepted connections at the end, and sum <= connections already closed by the server at intermediate quiescent points. Non-trivial: >= 2 connections of different outcome. Distinct: distinct controller action-label sequences."})
 }
 
 type c16Aux struct{ Kinds []string }
@@ -139,9 +179,14 @@ func drawC16(t *rapid.T) *Case {
 		aux.Kinds = append(aux.Kinds, kind)
 	}
 	p.Fences = drawBool(t, "fences", 30)
+	if drawBool(t, "shutdown", 20) {
+		// the proxy is shut down (context cancelled) while the connections are in whatever
+		// state they have reached: every accepted connection still counts exactly once
+		p.CancelAtStep = rapid.IntRange(1, 150).Draw(t, "cancelat")
+	}
 	p.Tape, p.Tail = drawTape(t, 96)
 	c := &Case{Plan: p, Metas: metas, Oracle: oracleC16, Aux: aux}
-	c.Summary = fmt.Sprintf("args=%v kinds=%v", p.Args, aux.Kinds)
+	c.Summary = fmt.Sprintf("args=%v cancelAt=%d kinds=%v", p.Args, p.CancelAtStep, aux.Kinds)
 	c.Nontrivial = func(w *World, c *Case) bool {
 		got := GatherRequestsTotal()
 		return len(got) >= 2
@@ -200,6 +245,16 @@ func serverClosedConns(w *World) int {
 	return n
 }
 
+// answered: the server has sent at least one response head on the connection.
+func answered(cl *Client) bool {
+	for _, r := range cl.Resps {
+		if r.Status > 0 {
+			return true
+		}
+	}
+	return false
+}
+
 func oracleC16(w *World, c *Case) {
 	// intermediate invariant at this quiescent point
 	if got, closed := sumCounts(GatherRequestsTotal()), serverClosedConns(w); got > closed {
@@ -225,8 +280,10 @@ func oracleC16(w *World, c *Case) {
 		switch {
 		case cl.Plan.Raw:
 			def[[2]string{"0", ""}]++
-		case cl.HandshakeOK && (cl.TLSVersion != 0x0304 || len(cl.Resps) > 0 || len(cl.Recv) > 0):
+		case cl.HandshakeOK && ((cl.TLSVersion != 0x0304 && w.Plan.CancelAtStep == 0) || answered(cl) || len(cl.Recv) > 0):
 			// TLS 1.2: the client's handshake returns only after the server's Finished;
+			// (unless a shutdown interrupts it: HandshakeContext reports the cancellation even
+			// when it falls between the last flight and its return);
 			// TLS 1.3: proven complete once the server answered on the connection
 			def[[2]string{"1", cl.NegProto}]++
 		default:
